@@ -75,6 +75,19 @@ def eintr_scenarios():
     ]
 
 
+def concurrent_create_cases():
+    """two concurrent p_semaphore_new calls of which at least one is CREATE mode (outside the property's
+    precondition; exercises the unlink / re-create loop): every schedule prefix of length 8"""
+    out = []
+    for bits in itertools.product("ab", repeat=8):
+        s = "".join(bits)
+        out.append(["2 new-sem 5 s0 1 OPEN", "par %s 0 new-sem 0 s0 2 CREATE ; 1 new-sem 1 s0 3 CREATE" % s, "obs", "0 rel 0", "1 rel 1", "obs"])
+    for bits in itertools.product("ab", repeat=6):
+        s = "".join(bits)
+        out.append(["2 new-sem 5 s0 1 OPEN", "par %s 0 new-sem 0 s0 2 CREATE ; 1 new-sem 1 s0 3 OPEN" % s, "obs", "0 rel 0", "1 rel 1", "obs"])
+    return out
+
+
 def run(chk):
     cfg = pv.repo_config()
     proof_ok, driver_ok, detail = pv.proof_stage(chk, ["PV.Props.C06"])
@@ -102,12 +115,15 @@ def run(chk):
     depth = 4 if thorough else 3
     ex = list(exhaustive(depth))
     chk.cov["exhaustive_small_scope"] = {"depth": depth, "sequences": len(ex)}
-    nr = 500 if thorough else 70
+    nr = 600 if thorough else 250
     rnd = [ipc.prefilter(ipc.gen_history(rng, chk, rng.choice([8, 25, 70]), sem_w=1.0, shm_w=0.0)) for _ in range(nr)]
 
     R.run(corpus + crash + eintr, batch=20)
     R.run(ex, batch=40)
     R.run(rnd, batch=10)
+    conc = [ipc.prefilter(c) for c in concurrent_create_cases()]
+    chk.cov["concurrent_create_schedules_model_tie_only"] = len(conc)
+    R.run_model_only(conc)
     if thorough:
         for (n, v, it) in ((6, 1, 3000), (8, 3, 3000), (12, 2, 1500)):
             ipc.run_stress(chk, exe, ["stress-sem", n, v, it], "C06 v-exclusion stress")
